@@ -68,9 +68,16 @@ func oracle(in *ctl.Inst, r *vs.Result) []string {
 	} else {
 		// premise of "after at most one further relist": some list took its snapshot after the last server change
 		// (the system is quiescent, so every completed list has been applied)
+		// and after the last stale frame a faulty stream replayed
 		relisted := false
-		for _, rv := range o.ListRVs {
-			if rv == o.ServerRV {
+		after := 0
+		for _, n := range o.StaleAtList {
+			if n > after {
+				after = n
+			}
+		}
+		for i, rv := range o.ListRVs {
+			if rv == o.ServerRV && i >= after {
 				relisted = true
 			}
 		}
@@ -189,6 +196,9 @@ func Property() runner.Property {
 				// watcher's buffer must not undo what the list installed
 				mk("recreate-around-relist/close@1", ctl.Cfg{Pre: pre, Hist: []ctl.Mut{{Op: "del", Name: "a", Delay: 3 * time.Second}, {Op: "set", Name: "a", Labels: "l=1"}}, WatchFaults: map[int]fakeapi.WatchFault{1: W("close", 1)}, ReadAt: 5 * time.Second}),
 				mk("watch-blocks-forever/late", ctl.Cfg{Pre: pre, Hist: late, DefaultWatch: W("block", 0)}),
+				// the watch opened after relist #2 replays a stale DELETED frame and the server stays quiet: only relist #3
+				// (whose list carries the same resourceVersion as #2) can repair the cache
+				mk("stale-delete-replayed-after-relist/quiet", ctl.Cfg{Pre: pre, Hist: []ctl.Mut{{Op: "set", Name: "b", Labels: "l=1", Delay: time.Second}}, WatchFaults: map[int]fakeapi.WatchFault{2: W("stale-delete", 0)}, ReadAt: 10 * time.Second}),
 			}
 			// overflowed events: every event buffer holds one event only, so bursts are dropped somewhere on the way;
 			// the next relist must repair the cache (no subscriber: its own buffer would overflow legitimately)
